@@ -5,5 +5,6 @@ CONSTANTS
   Files <- BigFiles
   MaxK = 14
   Lossy = FALSE
+  Forgetful = FALSE
 INVARIANTS TypeOK I_W3 I_Writer I_Buffer I_DevLog I_T1 I_T2 I_T3 I_Cut
 CHECK_DEADLOCK TRUE
